@@ -228,7 +228,7 @@ Print Assumptions C14_accepted_feasible.
     extension (topological sort), together with the decoding of the k-th
     occurrence of a job id in [P[m]] into an operation that is needed to state
     the machine order without [L].
-    Zero durations: a cyclic [P] may still admit a schedule that is feasible
+    Zero durations: a cyclic [P] may still have a schedule that is feasible
     in the weak sense (all operations of the cycle at one instant); the
     library rejects it, and it is the acyclicity reading that is formalised. *)
 Theorem C14_accept_iff_acyclic_partial :
